@@ -131,10 +131,26 @@ func checkC08(c *km.Ctx) {
 							}
 						}
 					}
-					if needWrite && !adminOnly {
-						return s.Holds(k, prAdminU2F)
+					// the same comparison made inside a helper the operand was passed to
+					own := km.Prim{Name: "operand == authUser", Rel: func(f km.Fact, resolve func(ssa.Value) ssa.Value) bool {
+						if f.Op != token.EQL {
+							return false
+						}
+						return (resolve(f.X) == u && isAuthUser(f.Y)) || (resolve(f.Y) == u && isAuthUser(f.X))
+					}}
+					// own ∨ admin must be decided per return case of a helper, so it is one proposition
+					adm := []km.Prim{prAdminU2F}
+					if !(needWrite && !adminOnly) {
+						adm = append(adm, prAdmin)
 					}
-					return s.Holds(k, prAdmin) || s.Holds(k, prAdminU2F)
+					return s.Holds(k, km.Prim{Name: "own ∨ admin", Direct: func(f km.Fact) bool {
+						for _, a := range adm {
+							if a.Direct(f) {
+								return true
+							}
+						}
+						return false
+					}, Rel: own.Rel})
 				}
 				ok, why := operandOnPaths(c, s, ci, args[acc.arg], pred, roots, reach, 6)
 				req := "own profile (operand is authUser or == authUser)"
@@ -262,19 +278,47 @@ func checkAdminPredicates(c *km.Ctx, s *km.Sem) {
 			cl, idx := callRes(f.X)
 			return f.Op == token.NEQ && km.IsNilConst(f.Y) && cl != nil && idx == 1 && km.CalleeFull(cl.Common()) == RS+"_IsAdminUser"
 		}}
-		for _, rc := range s.RetCases(fn) {
-			v := km.Unwrap(rc.Results[0])
-			cl, idx := callRes(v)
+		// judge one source value under one conjunction of facts
+		judge := func(v ssa.Value, k km.Conj) (string, bool) {
+			cl, idx := callRes(km.Unwrap(v))
 			switch {
 			case cl != nil && km.CalleeFull(cl.Common()) == getName && idx == 0:
-				ok := rc.State.All(func(k km.Conj) bool { return s.Holds(k, validTrue) || s.Holds(k, evalFailed) })
-				r.Add("R-C08-2", km.FuncName(fn), "return cached verdict", posOf(c, rc.Ret), "cached verdict returned only while the entry is valid, or when re-evaluation failed", clipS(rc.State.String(), 300), ok)
+				return "cached", s.Holds(k, validTrue) || s.Holds(k, evalFailed)
 			case cl != nil && km.CalleeFull(cl.Common()) == RS+"_IsAdminUser" && idx == 0:
-				ok := rc.State.All(func(k km.Conj) bool { return s.Holds(k, evalOK) })
-				r.Add("R-C08-2", km.FuncName(fn), "return fresh verdict", posOf(c, rc.Ret), "fresh verdict returned only when _IsAdminUser succeeded", clipS(rc.State.String(), 300), ok)
-			default:
-				r.Add("R-C08-2", km.FuncName(fn), "return (unrecognised source)", posOf(c, rc.Ret), "IsAdminUser returns the cached or the freshly evaluated verdict", km.ValStr(v), false)
+				return "fresh", s.Holds(k, evalOK)
 			}
+			return "unrecognised", false
+		}
+		reqOf := map[string]string{
+			"cached":       "cached verdict returned only while the entry is valid, or when re-evaluation failed",
+			"fresh":        "fresh verdict returned only when _IsAdminUser succeeded",
+			"unrecognised": "IsAdminUser returns the cached or the freshly evaluated verdict",
+			"merged":       "on every path the result is the cached verdict (entry valid or re-evaluation failed) or the fresh verdict (_IsAdminUser succeeded)",
+		}
+		for _, rc := range s.RetCases(fn) {
+			v := km.Unwrap(rc.Results[0])
+			if phi, isPhi := v.(*ssa.Phi); isPhi {
+				// a merged result: in every disjunct the provenance fact names the source taken on that path
+				ok := rc.State.All(func(k km.Conj) bool {
+					for _, f := range k.List() {
+						if f.Op == token.EQL && f.X == ssa.Value(phi) {
+							if _, good := judge(f.Y, k); good {
+								return true
+							}
+						}
+					}
+					return false
+				})
+				r.Add("R-C08-2", km.FuncName(fn), "return merged verdict", posOf(c, rc.Ret), reqOf["merged"], clipS(rc.State.String(), 300), ok)
+				continue
+			}
+			kind, _ := judge(v, km.Conj{})
+			if kind == "unrecognised" {
+				r.Add("R-C08-2", km.FuncName(fn), "return (unrecognised source)", posOf(c, rc.Ret), reqOf[kind], km.ValStr(v), false)
+				continue
+			}
+			ok := rc.State.All(func(k km.Conj) bool { _, g := judge(v, k); return g })
+			r.Add("R-C08-2", km.FuncName(fn), "return "+kind+" verdict", posOf(c, rc.Ret), reqOf[kind], clipS(rc.State.String(), 300), ok)
 		}
 		// the timestamp is refreshed only after the entry expired (otherwise an active admin is never re-evaluated)
 		nPut := 0
@@ -355,11 +399,14 @@ func checkAdminPredicates(c *km.Ctx, s *km.Sem) {
 					if f.Op == token.EQL && ((f.X == ssa.Value(fn.Params[1]) && isConfigElem(f.Y, "AdminUsers")) || (f.Y == ssa.Value(fn.Params[1]) && isConfigElem(f.X, "AdminUsers"))) {
 						return true
 					}
-					if f.Op == token.ILLEGAL && f.Pol {
-						if ex, ok := f.X.(*ssa.Extract); ok && ex.Index == 1 {
-							if lk, ok := ex.Tuple.(*ssa.Lookup); ok && lk.CommaOk && isConfigElem(lk.Index, "AdminGroups") {
-								return true
-							}
+					if list, elem, isM := membership(f); isM {
+						// user ∈ configured admin names
+						if elem == ssa.Value(fn.Params[1]) && isConfigList(list, "AdminUsers") {
+							return true
+						}
+						// a configured admin group ∈ the groups looked up for this user
+						if isConfigElem(elem, "AdminGroups") && derivesFromUserGroups(list, fn, 0) {
+							return true
 						}
 					}
 				}
@@ -368,6 +415,37 @@ func checkAdminPredicates(c *km.Ctx, s *km.Sem) {
 			r.Add("R-C08-2", km.FuncName(fn), "return true", posOf(c, rc.Ret), "user == configured admin name, or user's group set contains a configured admin group", clipS(rc.State.String(), 300), ok2)
 		}
 	}
+}
+
+// derivesFromUserGroups: v is the result of getUserGroups(<the user parameter>) or a set built only from it
+func derivesFromUserGroups(v ssa.Value, fn *ssa.Function, depth int) bool {
+	v = km.Unwrap(v)
+	if depth > 3 {
+		return false
+	}
+	if cl, idx := callRes(v); cl != nil && idx == 0 && strings.HasSuffix(km.CalleeFull(cl.Common()), ".getUserGroups") {
+		a := km.CallArgs(cl.Common())
+		return len(a) == 2 && km.Unwrap(a[1]) == ssa.Value(fn.Params[1])
+	}
+	if mk, ok := v.(*ssa.MakeMap); ok {
+		// every key stored into the set is an element of a value that derives from the user's groups
+		n := 0
+		for _, ref := range *mk.Referrers() {
+			if mu, ok := ref.(*ssa.MapUpdate); ok && mu.Map == ssa.Value(mk) {
+				n++
+				u, ok := km.Unwrap(mu.Key).(*ssa.UnOp)
+				if !ok {
+					return false
+				}
+				ia, ok := u.X.(*ssa.IndexAddr)
+				if !ok || !derivesFromUserGroups(ia.X, fn, depth+1) {
+					return false
+				}
+			}
+		}
+		return n > 0
+	}
+	return false
 }
 
 func isConfigElem(v ssa.Value, field string) bool {
